@@ -251,6 +251,9 @@ func runC20(c *Ctx, w *World, r *Report) {
 					miss = append(miss, "recursion on every value (MapIndex)")
 				}
 			}
+			// R-MAPITER: the value of an entry comes from the iteration, not from a second lookup
+			r.Rule("R-MAPITER", "the value of each map entry is taken from the iteration itself (reflect.MapIter.Value), not from a second lookup v.MapIndex(key): MapIndex returns the invalid Value for a key that is not equal to itself (a NaN float or complex, or an array/struct/interface holding one), sizeof(invalid) is 0 and the entry's value silently drops out of the sum")
+			r.Check(!argSrc["MapIndex"], "R-MAPITER", key, w.Pos(sizeof.Pos()), "the values of a map are obtained by v.MapIndex(key): for a key that is not equal to itself (NaN) the lookup fails and the value is counted as 0 bytes, e.g. Of(map[float64]int64{NaN: 7}) = 16 instead of 24", "values come from MapIter.Value()")
 		case "Slice", "Array":
 			miss = need("Len", "Index")
 			if !argSrc["Index"] {
@@ -375,6 +378,22 @@ func runC20(c *Ctx, w *World, r *Report) {
 		for _, ret := range returnsOf(of) {
 			for _, src := range resolvePhi(ret.Results[0]) {
 				if k, ok := constInt64(src); ok && k == 0 {
+					// 0 is the size of the nil argument only: the edge must be data == nil itself
+					isNilEdge := false
+					if len(resolvePhi(ret.Results[0])) == 1 {
+						for _, cd := range w.FA(of).Conds(ret.Block()) {
+							if bo, ok := cd.V.(*ssa.BinOp); ok && (bo.Op == token.EQL) == cd.Pol && (bo.Op == token.EQL || bo.Op == token.NEQ) {
+								for _, pr := range [2][2]ssa.Value{{bo.X, bo.Y}, {bo.Y, bo.X}} {
+									if c, ok := pr[1].(*ssa.Const); ok && c.IsNil() && pr[0] == ssa.Value(of.Params[0]) {
+										isNilEdge = true
+									}
+								}
+							}
+						}
+					}
+					if !isNilEdge {
+						okRet, bad = false, "0 returned at "+w.InstrPos(ret)+" on an edge other than data == nil (a typed nil pointer still has its 8-byte header)"
+					}
 					continue
 				}
 				if call, ok := src.(*ssa.Call); ok && call.Common().StaticCallee() == sizeof {
@@ -401,6 +420,25 @@ func runC20(c *Ctx, w *World, r *Report) {
 	if stat == nil {
 		r.Unknown("R-STATHDR", "size.stat", w.Pos(statAPI.Pos()), "Stat does not call a module function taking a reflect.Value")
 		return
+	}
+	// Stat describes the value it was given: what it hands on is reflect.ValueOf(v) itself, on every path
+	{
+		badArg := ""
+		ncall := 0
+		eachInstr(statAPI, func(ins ssa.Instruction) {
+			call, ok := ins.(*ssa.Call)
+			if !ok || call.Common().StaticCallee() != stat {
+				return
+			}
+			ncall++
+			for _, src := range resolvePhi(call.Common().Args[0]) {
+				vc, ok := src.(*ssa.Call)
+				if !ok || calleeName(vc.Common()) != "reflect.ValueOf" || vc.Common().Args[0] != ssa.Value(statAPI.Params[0]) {
+					badArg = fmt.Sprintf("Stat describes %s at %s, not reflect.ValueOf(v): its first line is then not Of(v)", src, w.InstrPos(ins))
+				}
+			}
+		})
+		r.Check(badArg == "" && ncall > 0, "R-STATHDR", "size.Stat|arg", w.Pos(statAPI.Pos()), badArg, "stat(reflect.ValueOf(v), ...)")
 	}
 	// every integer printed by a Sprintf that builds the header must be sizeof(param0)
 	nHdr, badHdr := 0, ""
